@@ -1081,7 +1081,8 @@ static int write_text(void *context, UChar *text, int32_t length, int fold, int 
             return CIF_ERROR;
         }
     } else {
-        int target_length = LINE_LENGTH(context) - 8;
+        /* leave room for the continuation backslash and, when prefixing, for the prefix */
+        int target_length = LINE_LENGTH(context) - 8 - (prefix ? PREFIX_LENGTH : 0);
         char prefix_text[] = PREFIX;
         int prefix_chars;
         UChar *tok;
